@@ -31,8 +31,9 @@ CLAIMED = {
             "Also proved: the accumulation of Gamma over the replicas of an ensemble and the pair-count normalisation (sum over replicas divided by "
             "max(1, number of pairs), each replica with its own configuration list; one and two replicas), the vanishing-variance guard, "
             "rho = Gamma/Gamma(0), the cumulative tau_int with its clamp and dtau_int (eq. 42). A native harness compares rho(t) of the real "
-            "gamma_method with an independent pair-counting evaluation. NOT decided: the norm step of _compute_drho, the totals incl. "
-            "Covobs.errsq over several ensembles."),
+            "gamma_method with an independent pair-counting evaluation. The totals: per ensemble the squares are accumulated, errors of "
+            "covariance-defined inputs are sqrt(errsq) with zero error of the error, the total error is the quadrature sum and ddvalue = "
+            "sqrt(sum) / dvalue (0 for dvalue = 0). NOT decided: the norm step of _compute_drho."),
     "C03": ("lemmas over the C02 contracts + frame obligations on the gamma_method slices + _parse_kwarg precedence",
             "Proof: (1) FFT on/off: both branches of _calc_gamma satisfy the same postcondition; (2) relabelling i -> a*i+b: the extent of every "
             "replica in units of the common spacing is the relabelling-invariant quantity (postcondition of the r_length slice; the invariance "
